@@ -201,7 +201,11 @@ claim('C08',
       'evaluated schema, start/end extents taken from the cursor, cursor '
       'restoration between alternatives, save/restore of the short-if fence '
       'across re-entrant parsing, operator and statement-keyword inventories '
-      'against the reference grammar, and the (missing) end-of-input test.',
+      'against the reference grammar, and the (missing) end-of-input test; '
+      'the fence of a short-if is the index of the next line-end token -- '
+      'read off the scan loop, or, when the scan lives in a method of its '
+      'own, by evaluating that method on one parser object for positions '
+      'asked out of order (the parser backtracks).',
       'Decided: the necessary conditions above. One open known finding: '
       'process_tokens has no end-of-input test (known_findings.json). Not '
       'decided: that the tree has the right shape for a concrete program '
